@@ -105,6 +105,30 @@ PROPS = {
             "hand model Model/Codecs.lean (bit-string formatting/indexing as bit arithmetic, enum id map with later-wins, AI tag packing, hit-point fraction), tied by exhaustive correspondence runs",
         ],
     },
+    "C15": {
+        "targets": ["RichchkModel.Props.C15"],
+        "harness": "fileops_h",
+        "theorems_file": "RichchkModel/Props/C15.lean",
+        "namespace": "Richchk.Props.C15",
+        "trusted": ["abstract file system (path -> content); Spec/FileApis.lean = the call sequences the model was written against; real file system and StormLib exercised by the harness (partial: real FS)"],
+    },
+    "C16": {
+        "targets": ["RichchkModel.Props.C16"],
+        "harness": "fileops_h",
+        "theorems_file": "RichchkModel/Props/C16.lean",
+        "namespace": "Richchk.Props.C16",
+        "trusted": [
+            "StormLib's observable behaviour as hypothesised in Model/FileOps.lean (an archive call on the temp copy changes only that file; open/search/extract/close do not modify an archive); os.replace is atomic",
+            "not modelled: a failing os.remove during cleanup, a close() that fails after creating an empty temp file, leaked archive handles, power loss between write and fsync",
+        ],
+    },
+    "C17": {
+        "targets": ["RichchkModel.Props.C17"],
+        "harness": "fileops_h",
+        "theorems_file": "RichchkModel/Props/C17.lean",
+        "namespace": "Richchk.Props.C17",
+        "trusted": ["StormLib as a member map (put replaces one member; compact/close keep members) — hypothesis, validated on the real library; mutagen's OGG length; the wave module's frame count and rate"],
+    },
     "C18": {
         "targets": ["RichchkModel.Props.C18"],
         "harness": "imports_h",
@@ -183,7 +207,7 @@ def regenerate():
     return gaps, summary
 
 
-EXTRA_TRANSLATORS = ["tr_codecs", "tr_trig", "tr_consts", "tr_imports"]  # each module exposes generate(gen_dir, build_dir, write_if_changed)
+EXTRA_TRANSLATORS = ["tr_codecs", "tr_trig", "tr_consts", "tr_imports", "tr_fileapis"]  # each module exposes generate(gen_dir, build_dir, write_if_changed)
 
 
 def lake_build(targets, timeout=3000):
